@@ -2519,7 +2519,7 @@ def mid_cases(rng, quick=True):
     vals = [0, 1, 22, 23, 65535]
     combos = [(m, p, c) for m in vals for p in vals for c in (0, 1, 65535)]
     if quick:
-        combos = [x for i, x in enumerate(combos) if x[1] == 0 or x[0] == 0 or i % 5 == 0]
+        combos = [x for i, x in enumerate(combos) if (x[1] == 0 and x[2] != 1) or (x[0] == 0 and x[2] == 1) or i % 7 == 0]
     for mtu, mps, credits in combos:
         add(f'coc-response-mtu{mtu}-mps{mps}-credits{credits}', 'coc.open',
             [le_sig('15{ID}0a00' + '7000' + le16(mtu) + le16(mps) + le16(credits) + '0000'),
@@ -2807,7 +2807,7 @@ def run(ctx):
     cases = (load_corpus() + directed_cases() + stateful_cases(ctx.rng.fork('stateful'), ctx.quick())
              + mid_cases(ctx.rng.fork('mid'), ctx.quick()))
     gen = Gen(ctx.rng.fork('campaign'), seeds)
-    for _ in range(ctx.n(1300, 30000)):
+    for _ in range(ctx.n(1100, 30000)):
         cases.append(gen.case())
     campaign(ctx, cases)
     ctx.log('campaign done:', ctx.dist.get('campaign.cases'), 'cases,', len(ctx.violations), 'violations')
